@@ -29,7 +29,7 @@ def _loc():
 @st.composite
 def loc_case(draw, tier="quick"):
     n = draw(gen.length(20))
-    bmode = draw(st.sampled_from(["default", "default", "box", "box", "box", "degenerate", "globe"]))
+    bmode = draw(st.sampled_from(["default", "default", "box", "box", "box", "degenerate", "globe", "wide"]))
     if bmode in ("default", "globe"):
         bbox = [-180.0, -90.0, 180.0, 90.0]
     else:
@@ -49,7 +49,11 @@ def loc_case(draw, tier="quick"):
             if "y2" in which and y1 <= 0:
                 y2 = 0.0
         bbox = [x1, y1, x2, y2]
-    use_range = draw(st.booleans())
+    if bmode == "wide":
+        # a box written in the 0..360 longitude convention, or simply wider than the globe
+        bbox = draw(st.sampled_from([[0.0, -90.0, 360.0, 90.0], [190.0, 15.0, 210.0, 25.0], [-200.0, -95.0, 200.0, 95.0],
+                                     [170.0, -10.0, 190.0, 10.0], [-360.0, -90.0, 0.0, 90.0]]))
+    use_range = draw(st.booleans()) and bmode != "wide"
     lo_lim, la_lim = (180, 90) if use_range else (540, 100)
     lon_s = st.one_of(gen.near([bbox[0], bbox[2]], Q, 8.0), gen.dyadic(3, -lo_lim, lo_lim))
     lat_s = st.one_of(gen.near([bbox[1], bbox[3]], Q, 8.0), gen.dyadic(3, -la_lim, la_lim))
@@ -115,6 +119,7 @@ def check_loc(case, rec):
                                   ("hop_next_to_partial", partial_adj), ("latlon_swap_matters", swap),
                                   ("hop_on_range_max", hop_on), ("default_box", case["bbox"] is None),
                                   ("box_edge_zero", case["bbox"] is not None and 0.0 in case["bbox"]),
+                                  ("box_beyond_globe", case["bbox"] is not None and (abs(case["bbox"][0]) > 180 or abs(case["bbox"][2]) > 180)),
                                   ("range_max", rm is not None),
                                   ("partial_position", any(model.miss(a) != model.miss(b) for a, b in zip(lon, lat))),
                                   ("missing_position", any(model.miss(a) and model.miss(b) for a, b in zip(lon, lat)))) if on]
